@@ -138,12 +138,34 @@ def run_arena(ctx):
     ctx.rules.append("arena-oracle: 1-4 task_arenas (max_concurrency 1-6, reserved 0..mc), 1-5 external threads doing execute(parallel_for)/enqueue, observers, optional global_control limit 1-4; "
                      "every body samples its slot index and the set of threads inside; predicate = the six clauses of the property")
     oracle_tie(ctx, "arena-oracle", exe, [], cases, arena_oracle, bucket=lambda c: "arena limit=%d" % c[3], timeout=1200)
+    mcases = [[ctx.seed * 1000 + 800 + i, P, iso, ns] for i, (P, iso, ns) in enumerate([(4, 1, 8), (2, 1, 3), (4, 0, 8), (8, 1, 20), (3, 1, 1), (4, 1, 0)] * ctx.scale(1, 5))]
+    ctx.rules.append("arena-mandatory: max_allowed_parallelism = 1; a task enqueued into an arena of 2-8 slots (mandatory worker) while spawned tasks sit there and the caller waits plainly or inside "
+                     "isolate; 250 ms after all enqueued work finished only the caller may execute a parallel_for in that arena (three measurements, the last two count)")
+
+    def mand_oracle(c, toks):
+        if not toks or toks[-1] == "HANG" or toks[0].startswith("CRASH"):
+            return ("arena-mandatory-hang", "max_allowed_parallelism=1, task_arena(%d), enqueue with %d spawned tasks, caller waits %s: hang/crash" % (c[1], c[3], "inside isolate" if c[2] else "plainly"))
+        d = {toks[i]: int(toks[i + 1]) for i in range(0, len(toks) - 1, 2)}
+        if d.get("FOREIGN"):
+            return ("arena-limit-exceeded-after-enqueue", "max_allowed_parallelism=1, task_arena(%d): after an enqueued task ran while %d spawned tasks sat in the arena and the caller waited %s, "
+                    "a worker still executes user work (%d of 200 parallel_for iterations) although no enqueued work exists any more — at most L-1 = 0 workers may" % (
+                        c[1], c[3], "inside this_task_arena::isolate" if c[2] else "plainly", d["FOREIGN"]))
+        if d.get("LOST"):
+            return ("arena-mandatory-lost-task", "task_arena(%d): a spawned or enqueued task never ran" % c[1])
+        return None
+    oracle_tie(ctx, "arena-mandatory", exe, ["mandatory"], mcases, mand_oracle, bucket=lambda c: "arena-mandatory P=%d iso=%d" % (c[1], c[2]), timeout=600)
 
 
 def replay(ctx, rep):
-    if rep.get("tie") == "arena-oracle":
+    if rep.get("tie") in ("arena-oracle", "arena-mandatory"):
         lib, err = ctx.build_lib("tbb")
         exe, err = ctx.build_driver("drv_arena", libs=[lib], opt="-O2")
+        if rep.get("tie") == "arena-mandatory":
+            rc, lines, err = ctx.run_driver(exe, ["mandatory"], [rep["case"]], timeout=120)
+            print(lines)
+            if lines and "FOREIGN 0" not in lines[0]:
+                ctx.add(Finding("violation", "arena-limit-exceeded-after-enqueue", "replay %s: %s" % (rep["case"], lines[0]), {"tie": "arena-mandatory", "case": rep["case"]}))
+            return
         oracle_tie(ctx, "arena-oracle", exe, [], [rep["case"]], arena_oracle)
         return
     lib, err = ctx.build_lib("tbb")
